@@ -72,6 +72,8 @@ def run_unit(unit, snapshot, workdir, tier):
             if o["harness"] == h and o["status"] == "failed":
                 t = kani_be.pick_cex(tests, o["name"])
                 o["counterexample"] = {"harness": h, "kani_any_values": t["values"] if t else None, "check": t["check"] if t else None,
+                                       "native_replay": ({"how": "kani playback: the extracted code compiled for the host and run on these values", "test": t.get("test"),
+                                                          "result": t.get("native_result"), "output": t.get("native_output")} if t else None),
                                        "vars": re.findall(r"let\s+(?:mut\s+)?(\w+)\s*(?::\s*[^=;]+)?=\s*kani::any", sel[h]["body"])}
     for h in failed_h[6:]:
         for o in res["obligations"]:
@@ -83,9 +85,30 @@ def run_unit(unit, snapshot, workdir, tier):
 
 
 def playback(path, h, workdir):
-    cmd = ["kani", os.path.basename(path), "-Z", "function-contracts", "-Z", "stubbing", "-Z", "concrete-playback", "--concrete-playback=print",
+    """Counterexamples of one failed harness, replayed natively: Kani writes them into a copy of the
+    extracted file as unit tests (concrete playback), `kani playback` compiles that copy for the host
+    and runs them - the extracted real code executes on the verifier's values."""
+    import shutil
+    pb = path[:-3] + "_pb_" + h + ".rs"
+    shutil.copy(path, pb)
+    cmd = ["kani", os.path.basename(pb), "-Z", "function-contracts", "-Z", "stubbing", "-Z", "concrete-playback", "--concrete-playback=inplace",
            "--harness", h, "--output-format", "terse"]
     rc, o1, o2 = kani_be.run_killable(cmd, workdir, None, 600)
     if rc == 124:
         return None
-    return kani_be.parse_playback(o1)
+    text = open(pb).read()
+    tests = kani_be.parse_playback(text)
+    names = re.findall(r"fn (kani_concrete_playback_\w+)\(\)", text)
+    for t, n in zip(tests, names):
+        t["test"] = n
+    if not tests:
+        return kani_be.parse_playback(o1)
+    rc, o1, o2 = kani_be.run_killable(["kani", "playback", "-Z", "concrete-playback", os.path.basename(pb)], workdir, None, 300)
+    out = o1 + "\n" + o2
+    for t in tests:
+        m = re.search(r"test \S*%s \.\.\. (\w+)" % re.escape(t.get("test", "?")), out)
+        t["native_result"] = m.group(1) if m else "not run"
+        pm = re.search(r"---- \S*%s stdout ----\n(.*?)\n(?:stack backtrace|note:|\n)" % re.escape(t.get("test", "?")), out, re.S)
+        if pm:
+            t["native_output"] = pm.group(1).strip()[:600]
+    return tests
